@@ -85,5 +85,8 @@ def run(chk, fb, tier):
     C12.rule_no_effect(chk, fb, "C16.b")
     rule_locks(chk, fb)
     C12.rule_clone_complete(chk, fb, "C16.d")
+    from props import C13
+
+    C13.rule_tmp_names(chk, fb, C13.entry_points(fb), "C16.e")
     chk.assume("std::sync::RwLock gives mutual exclusion; a save-local object cannot be observed by another thread (it is never stored in shared state)")
     chk.note("schedule quantifier discharged by non-interference, not by enumerating interleavings")
